@@ -127,7 +127,8 @@ CLAIMED = {
                  'get exactly the documented wire type (fields in order, skipped omitted, tag = ordinal or discriminant; enums outside the type-dependent-discriminant class F12, C06_enum_refuted gives the witness); '
                  'init hook runs once on success and never on failure; deserialize_variant(tag) = deserialize on tag::rest; the inferred where-clause equals the documented one as a list, for all three derives (C06_bounds, on a transcription of FindTyParams); '
                  'the schema derive\'s per-variant inner structs keep exactly the parameters their fields mention and only predicates over kept parameters (C08gen_*, F9 as a theorem; F14 refutation). PARTIAL: that the emitted Rust compiles is validated by generated programs, not proved. ' + CORR + ' ~170 generated items (shapes, skips, discriminant expressions, generics, init hooks, *_with, macro-identifier field names) compiled against /repo per run, '
-                 'encode/decode/truncations/deserialize_variant/init-count vs the model; implementation-only oracle: tag byte == rustc\'s own discriminant. ~600 bound probes at marker types per run. Known findings F10, F11, F12, F14.'),
+                 'encode/decode/truncations/deserialize_variant/init-count vs the model; implementation-only oracles: tag byte == rustc\'s own discriminant; the init hook rewrites skipped fields from the decoded value and counts its calls per object, and the actual contents of skipped fields are reported after decoding through every entry point incl. deserialize_variant (exactly one hook call on the decoded value; Default without a hook). '
+                 'The corpus is also built in a crate that reaches borsh only through a re-export (crate = "reexporter::borsh") and with borsh-derive without its schema feature. ~880 bound probes at marker types per run (references, slices, pointers, lifetime and const parameters, raw identifiers). Known findings F10, F11, F12, F14, F19.'),
         'design_ref': 'DESIGN.md section 5 C06; NOTES-derive.md',
         'technique': 'Coq proof on a model of the macro logic + generated-program differential correspondence (cargo build per run)',
     },
@@ -135,7 +136,8 @@ CLAIMED = {
         'category': 'proof',
         'text': ('Kernel-checked on the transcription of check_attributes / field attribute checks / Discriminants::get / u8 tag typing: every rejection belongs to a violated rule of the property\'s list (C18_class) and, '
                  'outside the two named classes implicit-overflow (F11) and type-dependent discriminant (F12), an item is rejected iff it violates a rule (C18_exact_partial; refutation witnesses for both classes are theorems). '
-                 'PARTIAL: rustc\'s diagnostics are observed, not modelled. ' + CORR + ' ~1,550 (item, derive) modules per run: one rule violation at every variant/field position plus positive controls, '
+                 'a key repeated inside one attribute is refused for every derive (C18_repeated_key; the behaviour before the repair F21 was "last occurrence wins"); an accepted item violates at most the discriminant-fit rule, no hypothesis (C18_accept_only_fit). '
+                 'PARTIAL: rustc\'s diagnostics are observed, not modelled. ' + CORR + ' ~2,500 (item, derive) modules per run: one rule violation at every variant/field position (incl. a key repeated in one attribute, and source-level negatives for the nested bound/schema/with_funcs lists) plus positive controls incl. raw identifiers, lifetime and const parameters; a second build of a sample with borsh-derive WITHOUT its schema feature; '
                  'checked with cargo check --message-format=json, expansion-phase and type-check-phase negatives batched separately.'),
         'design_ref': 'DESIGN.md section 5 C18; NOTES-derive.md',
         'technique': 'Coq proof on a model of the macro checks + negative/positive generated-crate correspondence through rustc',
